@@ -47,7 +47,7 @@ AllowedLocked(S, q, k, id) ==
     LET v == IF S.mm[q][k][id] # "n" THEN S.mm[q][k][id] ELSE S.pm[q][k][id] IN
     [S |-> IF v = "n" \/ Variant = "no_delete" THEN S
            ELSE [S EXCEPT !.mm[q][k][id] = "n", !.pm[q][k][id] = "n"],
-     ok |-> v = "t"]
+     ok |-> v = "t" \/ (Variant = "allow_unknown" /\ v = "n")]   \* (variant: no recorded verdict = allowed)
 
 \* quota.ResetIn: clears the memo when the stored window has run out (does not restart it)
 ResetInLocked(S, q, k, t) ==
